@@ -56,7 +56,26 @@ def isDone : Prog σ α → Bool
 end Prog
 end Placement
 
+namespace Placement
+/-- transactions opened in writer mode -/
+def Lbl.isWrite : Lbl → Bool
+  | .main | .createProject | .createUser | .createCtype | .createConsumer | .updateConsumer | .cleanup | .other => true
+  | _ => false
+end Placement
+
 namespace Placement.Prog
+/-- run until `j` writer transactions have committed and the next transaction would be a writer
+(process death before or inside it); read transactions change no state -/
+def runWrites {σ α : Type} : Nat → Nat → Prog σ α → σ → σ × Prog σ α
+  | 0, _, p, s => (s, p)
+  | _, _, .done a, s => (s, .done a)
+  | fuel + 1, j, .txn l f, s =>
+    if l.isWrite then
+      match j with
+      | 0 => (s, .txn l f)
+      | j' + 1 => let (s', p) := f s; runWrites fuel j' p s'
+    else let (s', p) := f s; runWrites fuel j p s'
+
 /-- label of the next transaction -/
 def next? {σ α : Type} : Prog σ α → Option Lbl
   | .done _ => none
